@@ -314,7 +314,12 @@ impl Word {
                                     }
                                     
                                     let cur_length = sy.segments.len() - pos;
-                                    let maybe_new_length = self.alias_apply_length(mods, alias.output.position)?;
+                                    let maybe_new_length = match (self.alias_apply_length(mods, alias.output.position)?, mods.suprs.length) {
+                                        // added to an existing segment, `[+long]` alone means at least long and `[-overlong]` alone at most long, as in rules
+                                        (Some(_), [Some(ModKind::Binary(BinMod::Positive)), None]) => Some(cur_length.max(2)),
+                                        (Some(_), [None, Some(ModKind::Binary(BinMod::Negative))]) => Some(cur_length.min(2)),
+                                        (len, _) => len,
+                                    };
                                     // the payload goes to the whole segment, i.e. to every copy of a long one
                                     for copy in sy.segments.iter_mut().skip(*pos) {
                                         self.alias_apply_mods(copy, mods, alias.output.position)?;
